@@ -17,8 +17,8 @@ var run *ev.Run
 
 func TestMain(m *testing.M) {
 	run = ev.Start("C10", "exploration",
-		"rapid draws a universe (one repository, 2-7 projects, 1-2 majors each as p and p@vN, up to 3n+2 tagged versions incl. pre-releases, every "+
-			"tagged version with 0-3 requirements on arbitrary other tagged versions: diamonds, cycles, several majors) and 0-4 named root requirements. "+
+		"rapid draws a universe (one repository - on an arbitrary host or, a third of the time, on a well-known hosting service -, 2-7 projects, 1-2 majors each as p and p@vN, up to 3n+2 tagged versions incl. pre-releases, every "+
+			"tagged version with 0-3 requirements on arbitrary other tagged versions: diamonds, cycles, several majors) and 0-4 named root requirements, a fifth of them at a branch head (usually a pseudo-version). "+
 			"Oracle: mvs.BuildList equals an independent reference (BFS over all reachable (path, version) nodes, semver maximum per path, each path once); "+
 			"metamorphic: the same answer from a warm resolver, a new resolver on the warm cache directory, a cold cache directory, and with every "+
 			"requirement name in the universe and the root renamed (which changes declaration/sort order); and, with an injected transient fetch failure of one "+
